@@ -343,7 +343,7 @@ readers:
 		pkgOf := fn.Pkg
 		unbind := bindChanParams(fn) // a shared select helper sees this function's channels (readyBeforeDone(done, f.c))
 		pf := &PF{N: 2, InScope: func(f *ssa.Function) bool {
-			return rootFn(origin(f)).Pkg == pkgOf && f.Blocks != nil && origin(f) != fn
+			return (rootFn(origin(f)).Pkg == pkgOf || ctxBlockingHelper(c, origin(f))) && f.Blocks != nil && origin(f) != fn
 		}}
 		isC := func(ch ssa.Value) bool { return fieldOfChan(ch) == "c" }
 		pf.Instr = func(f *ssa.Function, in ssa.Instruction, q int) (StateSet, bool) {
